@@ -81,6 +81,14 @@ SKY_SPECS = [
     {'cls': 'PointSkyRegion', 'center': {'frame': 'galactic', 'lon': 160.001,
                                          'lat': -43.001},
      'meta': {'text': 'pt'}, 'visual': {'marker': '+'}},
+    # a region ON a pole of its frame (where "one arcsecond further north"
+    # does not exist); it is 80 deg from the pool's WCS centres, still on the
+    # visible side of their projections
+    {'cls': 'EllipseSkyRegion', 'center': {'frame': 'icrs', 'lon': 0.0,
+                                           'lat': 90.0},
+     'width': [40.0, 'arcsec'], 'height': [20.0, 'arcsec'],
+     'angle': [30.0, 'deg', 'Quantity'], 'meta': {'text': 'pole'},
+     'visual': {}},
 ]
 WCS_SPECS = [
     {'proj': 'TAN', 'frame': 'icrs', 'crval': [30.0, 10.0], 'crpix': [10.0, 10.0],
